@@ -47,11 +47,13 @@ pub enum WOp {
     Len,
     IsOpen,
     Close,
+    /// The file is renamed on disk while the writer is (possibly) open; the writer owns the file, not the name.
+    Rename,
 }
 
 impl WOp {
     fn is_push(&self) -> bool {
-        !matches!(self, WOp::Len | WOp::IsOpen | WOp::Close)
+        !matches!(self, WOp::Len | WOp::IsOpen | WOp::Close | WOp::Rename)
     }
 }
 
@@ -186,6 +188,7 @@ impl Writer {
                 },
             }
             if rng.chance(1, 12) { ops.push(if rng.bool() { WOp::Len } else { WOp::IsOpen }); }
+            if !faulty && !huge && rng.chance(1, 60) { ops.push(WOp::Rename); }
         }
         // Ending: explicit close(s) or plain drop. A parent header or a fault run needs an explicit close.
         let must_close = !header.is_empty() || faulty;
@@ -193,6 +196,11 @@ impl Writer {
         for i in 0..closes {
             ops.push(WOp::Close);
             if i + 1 < closes || rng.chance(1, 3) { ops.push(if rng.bool() { WOp::Len } else { WOp::IsOpen }); }
+            // Pushing into a closed writer cannot reach the file any more, but it is still counted by len().
+            if !faulty && rng.chance(1, 8) {
+                ops.push(match kind { WKind::Raw => if rng.bool() { WOp::Bit(rng.bool()) } else { WOp::Int { v: rng.next(), w: rng.range_usize(1, 64) } }, WKind::Int => if rng.bool() { WOp::Push(rng.wide()) } else { WOp::PushN { n: rng.range_usize(1, 9), salt: rng.next() & 0xFFFF } } });
+                ops.push(WOp::Len);
+            }
         }
         let fault = if faulty {
             let fam = *rng.pick(&[FaultFamily::Full, FaultFamily::Full, FaultFamily::Full, FaultFamily::WriteOnce, FaultFamily::WriteFrom, FaultFamily::Open, FaultFamily::Seek]);
@@ -221,7 +229,12 @@ impl Writer {
     fn expected(&self) -> Result<(Vec<u8>, u64), String> {
         let mut m = match self.kind { WKind::Raw => M::Raw(RawVector::new()), WKind::Int => M::Int(IntVector::new(self.width).map_err(|e| e.to_string())?) };
         let mut pushes = 0u64;
-        for op in self.ops.iter() { apply_model(&mut m, op, &mut pushes); }
+        // What is pushed after the first close() is counted by len() but cannot reach the file.
+        let mut closed = false;
+        for op in self.ops.iter() {
+            if *op == WOp::Close { closed = true; }
+            if !closed { apply_model(&mut m, op, &mut pushes); }
+        }
         let mut bytes: Vec<u8> = Vec::new();
         for h in self.header.iter() { bytes.extend_from_slice(&h.to_le_bytes()); }
         match &m { M::Raw(v) => v.serialize(&mut bytes), M::Int(v) => v.serialize(&mut bytes) }.map_err(|e| e.to_string())?;
@@ -234,7 +247,8 @@ impl Writer {
         let site = match self.kind { WKind::Raw => "RawVectorWriter", WKind::Int => "IntVectorWriter" };
         let mut tr = Trace { reported: Vec::new(), push_panicked: false, closed_ok: false, closes: 0, first_close_snapshot: None, flush_overflow: false, flush_exact: false, final_flush_empty: false, dropped_open: false, pushes: 0 };
         let session: Option<FsSession>;
-        let path: PathBuf;
+        #[allow(unused_assignments)]
+        let mut path: PathBuf = PathBuf::new();
         let mut _limit: Option<FsizeLimit> = None;
         match self.real {
             RealMode::Sim => {
@@ -256,11 +270,11 @@ impl Writer {
             },
             RealMode::DevFull => { session = None; path = PathBuf::from("/dev/full"); stats.fault("F3-full (real kernel, /dev/full)", 1); },
         }
-        let read_file = |session: &Option<FsSession>| -> Option<Vec<u8>> {
+        let read_file = |session: &Option<FsSession>, path: &PathBuf| -> Option<Vec<u8>> {
             match session {
                 // If the simulated file system never saw an open, the code bypassed the seam and wrote a real file.
-                Some(s) => if s.with(|st| st.counters.opens) == 0 && path.exists() { BYPASSED.with(|b| b.set(true)); std::fs::read(&path).ok() } else { s.file(&path) },
-                None => if self.real == RealMode::DevFull { None } else { std::fs::read(&path).ok() },
+                Some(s) => if s.with(|st| st.counters.opens) == 0 && path.exists() { BYPASSED.with(|b| b.set(true)); std::fs::read(path).ok() } else { s.file(path) },
+                None => if self.real == RealMode::DevFull { None } else { std::fs::read(path).ok() },
             }
         };
         stats.evaluations += 1;
@@ -275,7 +289,7 @@ impl Writer {
         });
         let mut w = match made {
             Ok(Ok(w)) => w,
-            Ok(Err(e)) => { tr.reported.push(format!("constructor: {}", e)); let f = read_file(&session); finish(session, stats); if self.real == RealMode::Plain || BYPASSED.with(|b| b.replace(false)) { let _ = std::fs::remove_file(&path); } return Ok((f, tr)); },
+            Ok(Err(e)) => { tr.reported.push(format!("constructor: {}", e)); let f = read_file(&session, &path); finish(session, stats); if self.real == RealMode::Plain || BYPASSED.with(|b| b.replace(false)) { let _ = std::fs::remove_file(&path); } return Ok((f, tr)); },
             Err(p) => { finish(session, stats); return Err(v("constructor-panic", site, p)); },
         };
 
@@ -335,6 +349,7 @@ impl Writer {
                     (WOp::IsOpen, W::Raw(x)) => { if x.is_open() != open_model { return Err(v("is-open", site, format!("op {}: is_open() = {}, expected {}", i, x.is_open(), open_model))); } },
                     (WOp::IsOpen, W::Int(x)) => { if x.is_open() != open_model { return Err(v("is-open", site, format!("op {}: is_open() = {}, expected {}", i, x.is_open(), open_model))); } },
                     (WOp::Close, _) => {},
+                    (WOp::Rename, _) => {},
                     _ => { return Err(v("harness", "writer-op", format!("op {:?} does not fit writer kind {:?}", op, self.kind))); },
                 }
                 Ok(())
@@ -357,6 +372,19 @@ impl Writer {
                 WOp::ExtendPanics { n, at, .. } => { if !tr.push_panicked { let k = (*at).min(*n); len_model += k; tr.pushes += k as u64; for _ in 0..k { note_push(self.width, &mut tr, &mut fill); } stats.probe("extend from an iterator that panics partway"); } },
                 WOp::PushN { n, .. } | WOp::Extend { n, .. } => { if !tr.push_panicked { len_model += *n; tr.pushes += *n as u64; for _ in 0..*n { note_push(self.width, &mut tr, &mut fill); } } },
                 WOp::Len | WOp::IsOpen => {},
+                WOp::Rename => {
+                    if self.real != RealMode::DevFull {
+                        let to = crate::scratch::file("renamed");
+                        match &session {
+                            // The code under test went around the seam and owns a real file: rename that one.
+                            Some(s) if s.with(|st| st.counters.opens) == 0 && path.exists() => { let _ = std::fs::rename(&path, &to); },
+                            Some(s) => s.rename(&path, &to),
+                            None => { let _ = std::fs::rename(&path, &to); },
+                        }
+                        path = to;
+                        stats.probe("file renamed while the writer is open");
+                    }
+                },
                 WOp::Close => {
                     let mut hdr = self.header.clone();
                     let r = catch(|| match &mut w {
@@ -368,7 +396,7 @@ impl Writer {
                         Ok(Ok(())) => {
                             if open_model && fill == 0 { tr.final_flush_empty = true; }
                             open_model = false; tr.closed_ok = true;
-                            if tr.first_close_snapshot.is_none() { tr.first_close_snapshot = read_file(&session); }
+                            if tr.first_close_snapshot.is_none() { tr.first_close_snapshot = read_file(&session, &path); }
                         },
                         Ok(Err(e)) => { tr.reported.push(format!("close #{}: {:?} {}", tr.closes, e.kind(), e)); },
                         Err(p) => { drop_quietly(w); finish(session, stats); return Err(v("close-panic", site, format!("close() panicked: {}", p))); },
@@ -383,7 +411,7 @@ impl Writer {
             match r { Err(ref m) if m.contains("unrelated panic while a writer is in scope") => {}, Err(p) => { finish(session, stats); return Err(v("drop-panic", site, format!("dropping the writer during unwinding panicked: {}", p))); }, Ok(()) => {} }
             stats.probe("writer dropped while the stack unwinds");
         } else if let Err(p) = catch(move || drop(w)) { finish(session, stats); return Err(v("drop-panic", site, format!("dropping the writer panicked: {}", p))); }
-        let file = read_file(&session);
+        let file = read_file(&session, &path);
         if let Some(s) = &session { if s.open_handles() != 0 { let n = s.open_handles(); finish(session, stats); return Err(v("handle-leak", site, format!("{} file handles still open after drop", n))); } }
         finish(session, stats);
         let bypassed = BYPASSED.with(|b| b.replace(false));
